@@ -147,6 +147,7 @@ Section NoFail.
     - exact Hm.
     - intros i0 _ q Hq. split; [eapply live_pending_nil; eapply (mo_live _ _ _ _ _ Hm); eauto|eapply Hin; eauto].
     - rewrite E. destruct (p_batch p); [exact I|].
+      destruct (kv_full cfg _ _); [exact I|].
       destruct (post_all F cfg _ _ (p_slots p) (p_seqs p)) as [[[sl' qs'] ev]|] eqn:EP; [exact I|].
       exfalso. eapply post_all_total; eauto.
   Qed.
